@@ -288,6 +288,52 @@ func (root *Root) resolveList(
 	var ea2 []error
 
 	lt := t.Base
+	// The elements of typed slices must be coerced to the list's element
+	// type like any other list so convert them to a generic list first.
+	switch list := obj.(type) {
+	case []string:
+		glist := make([]interface{}, 0, len(list))
+		for _, s := range list {
+			glist = append(glist, s)
+		}
+		obj = glist
+	case []int:
+		glist := make([]interface{}, 0, len(list))
+		for _, i := range list {
+			glist = append(glist, i)
+		}
+		obj = glist
+	case []int64:
+		glist := make([]interface{}, 0, len(list))
+		for _, i := range list {
+			glist = append(glist, i)
+		}
+		obj = glist
+	case []bool:
+		glist := make([]interface{}, 0, len(list))
+		for _, b := range list {
+			glist = append(glist, b)
+		}
+		obj = glist
+	case []float32:
+		glist := make([]interface{}, 0, len(list))
+		for _, f := range list {
+			glist = append(glist, f)
+		}
+		obj = glist
+	case []float64:
+		glist := make([]interface{}, 0, len(list))
+		for _, f := range list {
+			glist = append(glist, f)
+		}
+		obj = glist
+	case []time.Time:
+		glist := make([]interface{}, 0, len(list))
+		for _, f := range list {
+			glist = append(glist, f)
+		}
+		obj = glist
+	}
 	switch list := obj.(type) {
 	case ListResolver:
 		var rlist []interface{}
@@ -308,48 +354,6 @@ func (root *Root) resolveList(
 			Errors(ea2).in(i)
 			ea = append(ea, ea2...)
 			rlist = append(rlist, v)
-		}
-		result = rlist
-	case []string:
-		rlist := make([]interface{}, 0, len(list))
-		for _, s := range list {
-			rlist = append(rlist, s)
-		}
-		result = rlist
-	case []int:
-		rlist := make([]interface{}, 0, len(list))
-		for _, i := range list {
-			rlist = append(rlist, i)
-		}
-		result = rlist
-	case []int64:
-		rlist := make([]interface{}, 0, len(list))
-		for _, i := range list {
-			rlist = append(rlist, i)
-		}
-		result = rlist
-	case []bool:
-		rlist := make([]interface{}, 0, len(list))
-		for _, b := range list {
-			rlist = append(rlist, b)
-		}
-		result = rlist
-	case []float32:
-		rlist := make([]interface{}, 0, len(list))
-		for _, f := range list {
-			rlist = append(rlist, f)
-		}
-		result = rlist
-	case []float64:
-		rlist := make([]interface{}, 0, len(list))
-		for _, f := range list {
-			rlist = append(rlist, f)
-		}
-		result = rlist
-	case []time.Time:
-		rlist := make([]interface{}, 0, len(list))
-		for _, f := range list {
-			rlist = append(rlist, f)
 		}
 		result = rlist
 	default:
